@@ -66,6 +66,7 @@ func verifTupleInts(name string, maxN, maxL int) ([]*big.Int, [][]byte) {
 }
 
 func verifC16Ints(maxN, maxL int) {
+	v.NoSummaries() // the real framing code is the subject here
 	a, ra := verifTupleInts("a", maxN, maxL)
 	b, rb := verifTupleInts("b", maxN, maxL)
 	ha := SHA512_256i(a...)
@@ -78,6 +79,7 @@ func VerifHarness_C16_ints_framing_3x3() { verifC16Ints(3, 3) }
 
 // tagged variant: distinct tags or distinct tuples give distinct digests
 func verifC16Tagged(maxN, maxL, maxT int) {
+	v.NoSummaries() // the real framing code is the subject here
 	ta := v.NondetBytes("ta", v.NondetInt("ta_len", 0, maxT))
 	tb := v.NondetBytes("tb", v.NondetInt("tb_len", 0, maxT))
 	a, ra := verifTupleInts("a", maxN, maxL)
